@@ -7,6 +7,7 @@ import (
 	"math/big"
 	"regexp"
 	"sort"
+	"strconv"
 	"strings"
 	"unicode/utf8"
 )
@@ -206,8 +207,23 @@ func refAggregate(n *Node, pairs []Pair, defs map[string]*Node) (any, error) {
 		if !allInt && !allFloat {
 			// integers and floats in one group: the sum and the mean are the
 			// mathematical ones (a float); min/max are left to the typed cases
-			if n.S != "sum" && n.S != "avg" {
-				return nil, domain("%s over mixed integer and float values", n.S)
+			if n.S == "min" || n.S == "max" {
+				// the extreme by value; whether it shows as integer or float
+				// (2 and 2.0 tie) is left open
+				best := math.Inf(1)
+				if n.S == "max" {
+					best = math.Inf(-1)
+				}
+				for _, v := range vals {
+					x, ok := numAsFloat(v)
+					if !ok {
+						return nil, domain("%s over an integer beyond 2^53 mixed with floats", n.S)
+					}
+					if (n.S == "min" && x < best) || (n.S == "max" && x > best) {
+						best = x
+					}
+				}
+				return NumberOfEitherKind{V: best}, nil
 			}
 			var sum float64
 			for _, v := range vals {
@@ -315,6 +331,10 @@ func refAggregate(n *Node, pairs []Pair, defs map[string]*Node) (any, error) {
 	return nil, domain("aggregate %s has no reference semantics", n.S)
 }
 
+// NumberOfEitherKind is a reference number whose integer/float kind the
+// documentation leaves open: an engine integer or float of that value matches.
+type NumberOfEitherKind struct{ V float64 }
+
 // EqualRefVal compares a reference value with a normalised engine value.
 // groupCol: the engine renders GROUP BY columns as text, a number's decimal
 // text is accepted for the number there.
@@ -330,6 +350,15 @@ func EqualRefVal(want, got any, groupCol bool) bool {
 		}
 		return EqualVal(Norm(arr), Norm(ja.Items)) || (len(arr) == 0 && len(ja.Items) == 0)
 	}
+	if nk, ok := want.(NumberOfEitherKind); ok {
+		switch x := got.(type) {
+		case int64:
+			return float64(x) == nk.V
+		case float64:
+			return x == nk.V
+		}
+		return false
+	}
 	if EqualVal(want, got) {
 		return true
 	}
@@ -340,6 +369,10 @@ func EqualRefVal(want, got any, groupCol bool) bool {
 				return s == fmt.Sprintf("%d", x)
 			case bool:
 				return s == fmt.Sprintf("%v", x)
+			case float64:
+				// the text must read back as exactly that float
+				f, err := strconv.ParseFloat(s, 64)
+				return err == nil && f == x && orderNumRe.MatchString(s)
 			}
 		}
 	}
